@@ -86,6 +86,15 @@ def gen(ctx, rng):
                            [float(v) for v in np.arange(-1, 3.5, 0.5)], [float(v) for v in np.arange(0.325, 1.2, 0.05)],
                            [float(v) for v in np.linspace(-1, 3, 17)], [float(v) for v in np.arange(-1, 2.1, 0.25)]][(k - 2) % 6]
             a["robust"] = bool(k % 4 == 1)
+        if k % 4 == 1:
+            # unsigned input: step series near both ends of the type, so that the curve under- and overshoots its range
+            udt = ["uint8", "uint16"][(k // 4) % 2]
+            top = 250 if udt == "uint8" else 65000
+            nd = float(top + 5)
+            cube = np.stack([np.stack([np.where(np.arange(T) < int(rng.integers(3, T - 3)), float(rng.integers(0, 6)), float(top - rng.integers(0, 6)))
+                                       [:: (1 if (i + j) % 2 else -1)] for j in range(2)]) for i in range(2)])
+            cube[rng.random(cube.shape) < 0.08] = nd
+            a.update(cube=cube.tolist(), nodata=nd, dtype=udt)
         pcs = []
         for yy in range(2):
             for xx in range(2):
